@@ -1208,7 +1208,7 @@ def get_freqs(Fs, n):
     """Returns the center frequencies of the frequency decomposition of a time
     series of length n, sampled at Fs Hz"""
 
-    return np.linspace(0, Fs / 2, int(n / 2 + 1))
+    return np.fft.rfftfreq(int(n)) * Fs
 
 
 def circle_to_hz(omega, Fsamp):
